@@ -55,8 +55,10 @@ def bounded_only_if_restricted_choices(k, skel, clauses, deductive_ok=False, ded
 
     if os.environ.get("PYVC_FULL_SIM"):
         return False
-    if deductive_ok and skel.label.split("~")[0] in (deductive_set or DEDUCTIVE_WITH_RESTRICTED_CHOICES):
+    if deductive_ok and deductive_set is None and skel.label.split("~")[0] in DEDUCTIVE_WITH_RESTRICTED_CHOICES:
         return False
+    if deductive_ok and deductive_set is not None and skel.label in deductive_set:
+        return False  # the declared order only: the permuted variants of the thorough tier stay bounded stand-ins
     from pyvc.ctx import cur
 
     cur().memo.setdefault("bounded_clauses", set()).update(clauses)
